@@ -56,6 +56,8 @@ def c06(ck, tier, seed):
     base = {"count": 40 if tier == "quick" else 400, "nmax": 5, "steps": 60}
     variants = [{"cache": 1}, {"cache": 2, "threads": 4}, {"cache": 16}]
     _record_and_replay(ck, "C06", tier, seed, base, variants)
+    import checks
+    checks.store_mc(ck, tier)
     ck.assumptions += ["cache insertion/hit events are not instrumented (no hook): only observable results are judged"]
 
 
